@@ -362,6 +362,57 @@ def check_timeouts(chk, quick):
                          {"f": [("err", "Boom", "m", 10)]}, None, "exec_timeout.retry_interval.%s" % kind_,
                          "an execution running longer than the machine's TimeoutSeconds fails with States.Timeout at exactly that instant"))
     run_directed(chk, directed)
+    # a Retrier's interval that runs past the execution's time limit is cut at the limit, and that time-out is the
+    # execution's: no Catcher or further Retrier of the retried state (Task, Parallel, Map) intercepts it
+    for etmo in (3, 4):
+        for kind in ("Task", "Parallel", "Map"):
+            for handler in ("catch-all", "catch-timeout", "retry-timeout-too", "none"):
+                retry = [{"ErrorEquals": ["Boom"], "IntervalSeconds": etmo + 2, "MaxAttempts": 2}]
+                extra = {}
+                if handler == "catch-all":
+                    extra["Catch"] = [{"ErrorEquals": ["States.ALL"], "Next": "C"}]
+                if handler == "catch-timeout":
+                    extra["Catch"] = [{"ErrorEquals": ["States.Timeout"], "Next": "C"}]
+                if handler == "retry-timeout-too":
+                    retry = retry + [{"ErrorEquals": ["States.Timeout", "States.TaskFailed"], "IntervalSeconds": 1, "MaxAttempts": 2}]
+                    extra["Catch"] = [{"ErrorEquals": ["States.ALL"], "Next": "C"}]
+                inner = T("f")
+                inner["End"] = True
+                if kind == "Task":
+                    st = dict(inner, Retry=retry, **extra)
+                elif kind == "Parallel":
+                    st = dict({"Type": "Parallel", "End": True, "Branches": [{"StartAt": "A", "States": {"A": inner}}], "Retry": retry}, **extra)
+                else:
+                    st = dict({"Type": "Map", "End": True, "ItemsPath": "$.items", "Iterator": {"StartAt": "A", "States": {"A": inner}}, "Retry": retry}, **extra)
+                m = {"TimeoutSeconds": etmo, "StartAt": "S", "States": {"S": st, "C": {"Type": "Pass", "Result": "caught", "End": True}}}
+                scn = explore.Scenario("t", m, {"x": 1, "items": [1]}, {"f": [("err", "Boom", "m")]}, {"f": 10})
+                s, ea, pl = scn.start()
+                g = None
+                while s.steps < 3000:
+                    if explore.terminal_seen(s, ea) and g is None:
+                        g = s.steps + 20
+                    if g is not None and s.steps >= g:
+                        break
+                    stp = s.canonical_step()
+                    if stp is None:
+                        break
+                    s.do(stp)
+                fv = explore.final_view(s, ea)
+                tt = term_time(s, ea)
+                case = {"kind": "retry-interval-vs-execution-timeout", "TimeoutSeconds": etmo, "state": kind, "handler": handler, "machine": m}
+                chk.count(cj(case), True)
+                chk.dist("retry_vs_exec_timeout.%s.%s" % (kind, handler))
+                exp = {"status": "FAILED", "error": "States.Timeout", "t": etmo * 1000, "requests": 1}
+                # (the cut is computed through float epoch seconds: the instant may be off by a few nanoseconds)
+                got = {"status": fv.get("status"), "error": fv.get("error"), "t": round(tt, 3) if tt is not None else None,
+                       "requests": len(s.rpc_requests)}
+                if s.errors:
+                    chk.report("impl-violates-law", case, impl={"errors": s.errors[:1]}, law="no exception escapes a handler")
+                elif got != exp:
+                    chk.report("impl-violates-law", case, impl=got, model=exp,
+                               law="a retry interval that runs past the execution's time limit ends in the execution's time-out at exactly "
+                                   "that instant: States.Timeout that no Retry or Catch of the retried state intercepts, no further request")
+                s.close()
     # a start event delivered late (the broker was slow, the engine was down): the execution's time limit counts from the
     # StartTime the start event carries, not from its delivery — the execution ends at StartTime + TimeoutSeconds, at once
     # if that instant has passed; the start state's own time-out counts from its entry, which is the StartTime as well
